@@ -287,8 +287,7 @@ impl SchemaConverter {
         if let Some(additional) = schema.get("additionalProperties") {
             if additional.is_object() {
                 let value_ty = self.resolve_type(walker, additional);
-                let index_ty = format!("[string] : {}", value_ty);
-                emitter.write_field(&index_ty, "", Some("Additional properties"));
+                emitter.write_index_field("string", &value_ty, Some("Additional properties"));
             }
         }
 
